@@ -21,8 +21,8 @@
      * C02_progress_run_tc_partial / C02_progress_sync_run_tc_partial : the same two statements with
        the premises teq_ok and tc_annotations_typed DISCHARGED (agreement teq_rt = identity or
        bisimilarity; proofs/RtTcSound.v, RtTcSoundTop.v, RtTcBisim.v, RtTheoremsTc.v); premises left,
-       per program: prog_syn_ok p, rt_syn_ok p (computable, evaluated by the check module) and Topo
-       on the reachable configurations.
+       prog_syn_ok p, raw_ok p (computable; theorems for parsed programs: the _parsed_ versions have
+       no premise but acceptance and Topo) and Topo on the reachable configurations.
    NOT proved: the non-polarized mode; the premise topo_runs / topo_reachable (the latter is false
    for programs whose top-level processes use each other cyclically: finding F29, fixed in /repo). *)
 From stdpp Require Import gmap strings.
@@ -88,7 +88,7 @@ Proof. exact progress_sync_run_partial. Qed.
 
 (* the same without teq_ok and tc_annotations_typed *)
 Theorem C02_progress_run_tc_partial : forall p p',
-  typecheck p = Accept p' -> in_fragment p' -> prog_syn_ok p = true -> rt_syn_ok p = true ->
+  typecheck p = Accept p' -> in_fragment p' -> prog_syn_ok p = true -> raw_ok p = true ->
   (* topo_runs *)
   (forall md c, is_np md = false -> reachable (p_types p') (p_funs p') md (init_config p') c -> Topo c) ->
   forall fuel pick c,
@@ -103,7 +103,7 @@ Theorem C02_progress_run_tc_partial : forall p p',
 Proof. exact progress_run_tc_partial. Qed.
 
 Theorem C02_progress_sync_run_tc_partial : forall p p',
-  typecheck p = Accept p' -> in_fragment p' -> prog_syn_ok p = true -> rt_syn_ok p = true ->
+  typecheck p = Accept p' -> in_fragment p' -> prog_syn_ok p = true -> raw_ok p = true ->
   (forall md c, is_np md = false -> reachable (p_types p') (p_funs p') md (init_config p') c -> Topo c) ->
   forall fuel pick c,
     exec_run fuel pick Sync (p_types p') (p_funs p') (init_config p') = RQuiescent c ->
@@ -115,9 +115,9 @@ Theorem C02_progress_sync_run_tc_partial : forall p p',
                 exists o, obj_in c o /\ k ∈ refs o) -> procs c = ∅).
 Proof. exact progress_sync_run_tc_partial. Qed.
 
-(* programs that come out of the parser: prog_syn_ok is a theorem (proofs/ParseSynOk.v) *)
+(* programs that come out of the parser: prog_syn_ok and raw_ok are theorems (proofs/ParseSynOk.v, ParseRaw.v) *)
 Theorem C02_progress_run_parsed_partial : forall txt p p',
-  parse_string txt = POk p -> typecheck p = Accept p' -> in_fragment p' -> rt_syn_ok p = true ->
+  parse_string txt = POk p -> typecheck p = Accept p' -> in_fragment p' ->
   (forall md c, is_np md = false -> reachable (p_types p') (p_funs p') md (init_config p') c -> Topo c) ->
   forall fuel pick c,
     exec_run fuel pick Async (p_types p') (p_funs p') (init_config p') = RQuiescent c ->
@@ -131,7 +131,7 @@ Theorem C02_progress_run_parsed_partial : forall txt p p',
 Proof. exact progress_run_parsed_partial. Qed.
 
 Theorem C02_progress_sync_run_parsed_partial : forall txt p p',
-  parse_string txt = POk p -> typecheck p = Accept p' -> in_fragment p' -> rt_syn_ok p = true ->
+  parse_string txt = POk p -> typecheck p = Accept p' -> in_fragment p' ->
   (forall md c, is_np md = false -> reachable (p_types p') (p_funs p') md (init_config p') c -> Topo c) ->
   forall fuel pick c,
     exec_run fuel pick Sync (p_types p') (p_funs p') (init_config p') = RQuiescent c ->
